@@ -553,8 +553,11 @@ def configs(ns):
         lambda: S([S([LR(), SS()]), LR()]), lambda: S([RG(alpha=2.0), SS(with_mean=False)], alpha=7),
     ]
     K = c["ClassifierAfterKMeans"]
+    from sklearn.svm import SVC
     cfg["ClassifierAfterKMeans"] = [lambda: K(), lambda: K(estimator=DTC(max_depth=3)),
-                                    lambda: K(clus=KM(n_clusters=3, n_init=1)), lambda: K(c_n_clusters=3, e_max_iter=50)]
+                                    lambda: K(clus=KM(n_clusters=3, n_init=1)), lambda: K(c_n_clusters=3, e_max_iter=50),
+                                    # parameter names that contain the prefix characters again (cache_size)
+                                    lambda: K(estimator=SVC(probability=True, cache_size=100))]
     A = c["ApproximateNMFPredictor"]
     cfg["ApproximateNMFPredictor"] = [lambda: A(), lambda: A(n_components=2), lambda: A(force_positive=True, alpha_W=0.5)]
     cfg["CategoriesToIntegers"] = [lambda: c["CategoriesToIntegers"](), lambda: c["CategoriesToIntegers"](columns="a"),
@@ -993,6 +996,8 @@ def check_config(name, ci, fac, ns, rng, vs, stats, n_keys, ctx):
     keys = sorted(adv)
     special = [k for k in keys if key_shape(k) != "<own>" and "__" not in k]
     big = [k for k in keys if key_shape(k).endswith(">=10")][:2]
+    # keys whose tail contains their own two-character prefix again (`e_cache_size`): prefix stripping must be positional
+    big += [k for k in keys if len(k) > 3 and k[1] == "_" and k[:2] in k[2:]][:3]
     pick = list(dict.fromkeys(special + big + rng.sample(keys, min(len(keys), n_keys))))
     for k in pick:
         o = fac()
